@@ -45,10 +45,17 @@ func setup4(args ...string) (handler.Handler4, error) {
 		if err != nil {
 			return Handler4, errors.New("expected a destination subnet, got: " + fields[0])
 		}
+		// the classless static route option can only carry IPv4 routes
+		if route.Dest.IP.To4() == nil || len(route.Dest.Mask) != net.IPv4len {
+			return Handler4, errors.New("expected an IPv4 destination subnet, got: " + fields[0])
+		}
 
 		route.Router = net.ParseIP(fields[1])
 		if route.Router == nil {
 			return Handler4, errors.New("expected a gateway address, got: " + fields[1])
+		}
+		if route.Router.To4() == nil {
+			return Handler4, errors.New("expected an IPv4 gateway address, got: " + fields[1])
 		}
 
 		routes = append(routes, route)
